@@ -160,7 +160,7 @@ def _make_mode(o):
     if m == "cbc":
         return aes.AESModeOfOperationCBC(key, iv)
     if m == "cfb":
-        return aes.AESModeOfOperationCFB(key, iv if iv is not None else bytes(16), o["seg"])
+        return aes.AESModeOfOperationCFB(key, iv, o["seg"])        # iv None: the documented all-zero default
     if m == "ofb":
         return aes.AESModeOfOperationOFB(key, iv)
     if o["ctr"] == "default":
